@@ -159,6 +159,9 @@ class MixRunner(object):
     self.vk = c.get("vkind")      # round 3: str / bytes / tuple / float values instead of exact rationals
     if self.vk: kw = {"zero": conv_val(self.vk, zv)}
     else: kw = {} if zk == "default" else {"zero": mk_zero(zk, zv)}
+    self.zero_obj = kw.get("zero")
+    self.zero_copy = conv_val(self.vk, zv) if self.vk else None
+    self.seen = []            # mutable outputs handed out so far (each sample must be a fresh object)
     if kk == "pos" and kw: self.sm = audiolazy.Streamix(keep, kw["zero"])
     elif kk == "int": self.sm = audiolazy.Streamix(int(keep), **kw)
     elif kk == "attr":
@@ -201,6 +204,10 @@ class MixRunner(object):
       src = self.sm if self.der is None else self.der
       try:
         v = next(src) if (self.unext and self.der is not None) else src.take()
+        if self.vk in ("list", "bytearray"):
+          if v is self.zero_obj: return ["raise", "SampleIsZeroObject"]
+          if any(v is w for w in self.seen): return ["raise", "SampleIsEarlierSample"]
+          self.seen.append(v)
         return ["item", obs_val(self.vk, v) if self.vk else fr(to_frac(v))]
       except StopIteration:
         return ["stop"]
@@ -209,6 +216,8 @@ class MixRunner(object):
 
   def finish(self):
     """aliasing: containers handed to add() still hold what the caller put in"""
+    if self.vk and self.vk != "float" and (type(self.zero_obj) is not type(self.zero_copy) or self.zero_obj != self.zero_copy):
+      return [["raise", "ZeroMutated"]]
     for w, orig in self.watch:
       if len(w) != len(orig) or any(a is not b for a, b in zip(w, orig)):
         return [["raise", "ArgMutated"]]
